@@ -83,6 +83,10 @@ def main(argv):
         print(__doc__)
         return 2
     mode = argv[1]
+    if mode == 'results':
+        n = results_from_log(argv[2], os.path.join(VERIF, 'seeded-refactors', 'RESULTS.md'))
+        print('RESULTS.md written, %d alarms' % n)
+        return 0
     d = argv[2] if len(argv) > 2 and mode != 'all' else os.path.join(VERIF, 'seeded-refactors')
     ids = [a for a in argv[3:]] or ALL
     diffs = sorted(glob.glob(os.path.join(d, '*.diff')))
@@ -108,6 +112,41 @@ def main(argv):
                     print('    %s exit=%d: %s' % (pid, rc, ' | '.join(lines)[:700]))
     print('%d patches, %d with a non-zero check' % (len(diffs), bad))
     return 1 if bad else 0
+
+
+def results_from_log(log, out):
+    """seeded-refactors/RESULTS.md from the output of a complete `all` run"""
+    import re
+    rows = []
+    cur = None
+    for l in open(log):
+        m = re.match(r'^(silent|ALARM|SKIP)\s+(\S+)', l)
+        if m:
+            cur = [m.group(2), m.group(1), []]
+            rows.append(cur)
+        elif cur is not None and l.startswith('    '):
+            cur[2].append(l.strip()[:300])
+    n_alarm = sum(1 for r in rows if r[1] != 'silent')
+    L = ['# Behaviour-preserving refactorings vs. all 20 quick checks', '',
+         'Produced by `selftest/refactor_seeds.py all` (each patch applied to a scratch copy of /repo, every quick check run with `--repo`).',
+         'Every patch was first confirmed by `refactor_seeds.py verify`: it applies, the single header equals the regenerated sources, the',
+         'library builds and the unedited suite passes 21/21. Expected outcome for every patch: all 20 checks exit 0.', '',
+         '%d patches, %d with a non-zero check.' % (len(rows), n_alarm), '',
+         '| patch | what it does (first line of its description) | outcome |', '|---|---|---|']
+    base = os.path.join(VERIF, 'seeded-refactors')
+    for name, verdict, det in rows:
+        desc = ''
+        t = os.path.join(base, name + '.txt')
+        if os.path.exists(t):
+            with open(t) as f:
+                for line in f:
+                    if line.strip():
+                        desc = line.strip()[:160].replace('|', '/')
+                        break
+        L.append('| %s | %s | %s |' % (name, desc, 'silent (20 checks)' if verdict == 'silent' else '**' + verdict + '** ' + ' / '.join(det)[:400].replace('|', '/')))
+    with open(out, 'w') as f:
+        f.write('\n'.join(L) + '\n')
+    return n_alarm
 
 
 if __name__ == '__main__':
